@@ -1,4 +1,4 @@
-from bisect import bisect
+from bisect import bisect, bisect_left
 from decimal import Decimal
 from enum import IntEnum
 from functools import total_ordering
@@ -356,10 +356,18 @@ class TimingEngine:
         Keep in mind that this situation is floating-point precise, so
         it's unlikely for the `event_tag` to ever make a difference.
         """
-        tagged_time = (time, event_tag)
+        # The states' times never decrease, but states that share a time
+        # aren't ordered by tag, so search by time first, then pick the last
+        # state at exactly this time whose tag doesn't exceed `event_tag`.
+        times = [tagged_time[0] for tagged_time in self._tagged_times]
+        first = bisect_left(times, time)
+        prior_state_index = first - 1
+        for index in range(first, bisect(times, time)):
+            if self._tagged_times[index][1] <= event_tag:
+                prior_state_index = index
 
         # Same caveat as `time_at`
-        prior_state_index = max(0, bisect(self._tagged_times, tagged_time) - 1)
+        prior_state_index = max(0, prior_state_index)
         prior_state: TimingState = self._state_machine[prior_state_index]
         prior_state_beat = prior_state.event.beat
 
